@@ -94,12 +94,20 @@ PROPS = {
                      "TinkVerif.Siv.s2v_eq_spec", "TinkVerif.Siv.s2v_eq_rfc", "TinkVerif.Siv.s2v_length",
                      "TinkVerif.Kwp.unwrap_wrap", "TinkVerif.Kwp.wrap_eq_none_iff", "TinkVerif.Kwp.wrap_length",
                      "TinkVerif.Kwp.unwrap_some_length"],
-        "harness": [{"name": "c08", "timeout": 3000}],
-        "rule": "AES-SIV via daead.New(handle) (TINK/CRUNCHY/RAW) and daead/subtle: pt/ad lengths <16, =16, 17..31, block multiples ±1, "
-                "up to 4 KiB; ciphertext equality with the Lean RFC 5297 model; decrypt decisions on mutations incl. the two cleared IV "
-                "bits and modified ad; S2V (both branches) and XOREndAndCompute compared with the RFC-text specification through export "
-                "hooks; AES-KWP: both KEK sizes, payload lengths 16..8192 (thorough: every length), equality with the model, unwrap of "
-                "mutated wrappings; non-trivial = every op line, distinct by line hash",
+        "harness": [{"name": "c08", "timeout": 3000, "pre": True}],
+        "rule": "AES-SIV via daead.New(handle) (TINK/CRUNCHY/RAW) and daead/subtle: plaintext AND associated-data lengths <16, =16, 17..31, "
+                "block multiples ±1, routinely up to 4 KiB and a few of 16–64 KiB, concentrated on k·1024 ± {0,1,15,16,17}, powers of two ± 1, "
+                "1040/1041; ciphertext equality with the Lean RFC 5297 model; decrypt decisions on mutations incl. the two cleared IV bits, "
+                "each SIV byte and modified ad; S2V (both branches), CMAC Compute and XOREndAndCompute compared with the RFC-text "
+                "specifications through export hooks at the same lengths; CTR counter carries: (key, pt, ad) searched so that the masked SIV's "
+                "low 8/16/24 bits wrap inside the message (hist ctrhunt/carryW/found), plus the CTR layer alone (hook VerifCtrCrypt vs model "
+                "clearBits+xorBE) on IVs whose low 8..128 bits are (nearly) all ones; AES-KWP: both KEK sizes, payload lengths 16..8192 "
+                "(thorough: every length), equality with the model, unwrap of mutated wrappings, and a forgery stream at the level of the "
+                "plaintext of the wrap: the model's W (op kwpraw, two-phase) applied to block strings with each AIV byte wrong, length "
+                "field too large/small/zero/misplaced, each padding position non-zero, padding patterns that XOR/ADD/AND to zero, extra or "
+                "missing blocks, for key lengths 1..64 (every len%8, both KEK sizes) and some long ones — verdict compared with the model's "
+                "unwrap and with an RFC 5649 check in the harness, accepted wrappings re-wrapped; "
+                "non-trivial = every op line, distinct by line hash",
         "trusted_base": [KERNEL, TIE, PRIMS],
         "assumptions": ["forgery rejection beyond the exact characterisation decrypt_iff rests on CMAC unforgeability (cryptographic)"],
         "manifest": {
@@ -380,8 +388,11 @@ PROPS["C03"] = {
     },
 }
 PROPS["C16"] = {
-    "lean": ["TinkVerif.Props.C16"],
-    "theorems": T("TinkVerif.Slh", "toInt_toByte toByte_length toByte_toInt toInt_lt base2b_length base2b_digit_lt idxTree_lt idxLeaf_lt"),
+    "lean": ["TinkVerif.Props.C16", "TinkVerif.Props.C16Struct", "TinkVerif.Kat.SlhStruct"],
+    "theorems": T("TinkVerif.Slh", "toInt_toByte toByte_length toByte_toInt toInt_lt base2b_length base2b_digit_lt idxTree_lt idxLeaf_lt") +
+                T("TinkVerif.SlhStruct", "base2b_eq_spec_ceil chain_add wotsPkFromSig_sign csum_strict_anti checksumDigits_eq "
+                  "wots_checksum_blocks_forward_forgery rootFromPath_authPath xmssPkFromSig_sign htVerify_sign forsPkFromSig_sign "
+                  "slhVerify_sign table2_digest_length table2_mDerived table2_height table2_wots"),
     "harness": [{"name": "c16", "timeout": 3000}],
     "rule": "all twelve SLH-DSA parameter sets: public key from seeds byte-identical with the FIPS 205 reference (f-sets quick, s-sets "
             "thorough), deterministic signatures byte-identical (f-sets), Go hedged signatures verify in the reference for varied messages "
@@ -394,7 +405,12 @@ PROPS["C16"] = {
                     "the structural verify∘sign theorem (Merkle paths) is not proved; only the support laws are"],
     "manifest": {
         "text": "Theorems for all inputs: toInt/toByte are mutually inverse (mod 256^n), base_2^b yields exactly outLen digits each below "
-                "2^b, tree and leaf indices are in range for every digest and every (h, h'). Tie for the scheme: keys, deterministic "
+                "2^b and the Go-shaped bit-buffer loop equals the digits of the big-endian integer (base2b_eq_spec), tree and leaf indices are in "
+                "range for every digest and every (h, h'). Structural FIPS 205 correctness over an ABSTRACT tweakable hash, all sizes: WOTS+ "
+                "chain composition and pkFromSig∘sign = pkGen, checksum strictly decreases when any digit advances (no forward forgery), "
+                "Merkle rootFromPath∘authPath = root, XMSS / hypertree / FORS verify their own signatures, and slhVerify (slhSign …) = true; "
+                "Table 2 identities for the 12 sets; the abstract model is tied to the executable reference by #guard byte comparisons. "
+                "Tie for the scheme: keys, deterministic "
                 "signatures and verification decisions of tink-go vs an independent FIPS 205 implementation in Lean on all twelve "
                 "parameter sets, incl. mutations in every structural region.",
         "design_ref": "DESIGN.md §5.16",
